@@ -334,6 +334,13 @@ func (cc *cliConn) stallEnd() string {
 		}
 		return strings.Join(p, ",")
 	}
+	if st.ended {
+		// what the end of the connection has set free needs a moment to get off the processor on a loaded machine; a
+		// goroutine that is really left behind is still there after two seconds
+		for i := 0; i < 2000 && (pending(st.fired) != "-" || pending(st.writes) != "-"); i++ {
+			time.Sleep(time.Millisecond)
+		}
+	}
 	closes := 0
 	for _, c := range st.closes {
 		if !chClosed(c) {
